@@ -133,7 +133,7 @@ def shard_frames(sh, part, parts):
     captured = []
     install_hook(cr, captured)
     rng, nprng = sh.rng('frames', part), sh.nprng('frames', part)
-    reps = 5 if sh.tier == 'quick' else 14
+    reps = 5 if sh.tier == 'quick' else 60
     todo = [(h, mode, via, r) for h in HEURISTICS for mode in ('True', 'False') for via in ('mixed_rank_graph', 'compute_batch_ranking') for r in range(reps)]
     random.Random(sh.seed).shuffle(todo)
     for t, (heuristic, mode, via, r) in enumerate(gen.chunks(todo, parts)[part]):
